@@ -169,7 +169,7 @@ func Families(tier string, seed int64) []*spec.Program {
 	for _, a := range Atlas() {
 		switch a.ID {
 		case "a_scalars", "a_lists", "a_casts", "a_oneof", "a_embed", "a_embedn", "a_embednc", "a_msgs", "a_temporal", "a_custom", "a_empty", "a_embednoneof", "a_maps", "a_mapbytes", "a_valuenames":
-			if thorough || a.ID == "a_scalars" || a.ID == "a_lists" || a.ID == "a_mapbytes" || a.ID == "a_casts" || a.ID == "a_oneof" || a.ID == "a_embednc" || a.ID == "a_msgs" || a.ID == "a_custom" || a.ID == "a_temporal" {
+			if thorough || a.ID == "a_scalars" || a.ID == "a_lists" || a.ID == "a_mapbytes" || a.ID == "a_casts" || a.ID == "a_oneof" || a.ID == "a_embednc" || a.ID == "a_msgs" || a.ID == "a_custom" || a.ID == "a_temporal" || a.ID == "a_maps" {
 				sepBases = append(sepBases, a)
 			}
 		}
@@ -180,13 +180,19 @@ func Families(tier string, seed int64) []*spec.Program {
 		// "normalisation" of such keys would make two entries of a map collide)
 		kb := variant(base, "f_keys", "base", "C01", "C13")
 		kb.Family = "f_keys"
-		kb.Config.NameOverrides = map[string]string{"Alpha.Id": "ident", "Beta.Count": "how_many", "Leaf.Str": "text"}
-		kb.Config.Validators = map[string][]string{"Alpha.Id": {spec.SupportPkg + `.V("real")`}}
+		// "Leaf.Str" in general, and an exception at one place it is reached: the path form wins there
+		kb.Config.NameOverrides = map[string]string{"Alpha.Id": "ident", "Beta.Count": "how_many", "Leaf.Str": "text", "Alpha.M1.Leaf.Str": "text_of_m1", "Beta.L.Str": "text_of_beta"}
+		kb.Config.Validators = map[string][]string{"Alpha.Id": {spec.SupportPkg + `.V("real")`}, "Leaf.Num": {spec.SupportPkg + `.V("general")`}, "Alpha.M1.Leaf.Num": {spec.SupportPkg + `.V("specific")`}}
+		kb.Config.PlanModifiers = map[string][]string{"Leaf.Tags": {spec.SupportPkg + `.PM("general")`}, "Beta.L.Tags": {spec.SupportPkg + `.PM("specific")`}}
 		out = append(out, kb)
 		kv := variant(kb, "f_keys_sep", "separate-package", "C01", "C13", "C14")
 		kv.Family = "f_keys"
 		kv.Config.DefaultPackageName = "verifcorpus/f_keys_sep/pk"
 		kv.Config.TargetPackageName = "tf"
+		kv.Config.Validators = map[string][]string{}
+		for k, v := range kb.Config.Validators {
+			kv.Config.Validators[k] = v
+		}
 		for _, k := range []string{"Alpha.Id", "Beta.Count", "Leaf.Str"} {
 			kv.Config.NameOverrides["pk."+k] = "decoy_" + strings.ToLower(strings.ReplaceAll(k, ".", "_"))
 		}
@@ -233,6 +239,16 @@ func Families(tier string, seed int64) []*spec.Program {
 
 	// ---- C15: declaration order
 	orderBases := []*spec.Program{base, flagsP}
+	for _, p := range out {
+		if p.ID == "f_cross_sel" {
+			// documented messages of ANOTHER file below messages of this one: permuting this file must not move them
+			ob := variant(p, "f_crossord", "base", append([]string{"C15"}, convProps...)...)
+			ob.Family = "f_crossord"
+			ob.NoRun = false
+			out = append(out, ob)
+			orderBases = append(orderBases, ob)
+		}
+	}
 	for _, a := range Atlas() {
 		if a.ID == "a_oneof" || a.ID == "a_embed" || a.ID == "a_embedncustom" || (thorough && (a.ID == "a_msgs" || a.ID == "a_temporal" || a.ID == "a_names")) {
 			orderBases = append(orderBases, a)
@@ -290,8 +306,13 @@ func Families(tier string, seed int64) []*spec.Program {
 		cb.Config.DurationCustomType = "Duration"
 		// fields whose treatment depends on the custom duration type (the decoy value in the file must lose)
 		if m := cb.Spec.MsgByName("Beta"); m != nil {
-			m.Fields = append(m.Fields, spec.Field{Name: "Ttl", Type: "int64", CastType: "Duration", Num: 60}, spec.Field{Name: "Grace", Type: "int64", CastType: "LeaseDuration", Num: 61})
+			m.Fields = append(m.Fields, spec.Field{Name: "Ttl", Type: "int64", CastType: "Duration", Num: 60}, spec.Field{Name: "Grace", Type: "int64", CastType: "LeaseDuration", Num: 61},
+				// list elements with underscores ("+" is the only separator)
+				spec.Field{Name: "secret_token", Type: "string", Num: 62}, spec.Field{Name: "api_key_id", Type: "string", Num: 63}, spec.Field{Name: "old_note", Type: "string", Num: 64})
 		}
+		cb.Config.SensitiveFields = append(cb.Config.SensitiveFields, "Beta.secret_token")
+		cb.Config.ComputedFields = append(cb.Config.ComputedFields, "Beta.api_key_id")
+		cb.Config.ExcludeFields = append(cb.Config.ExcludeFields, "Beta.old_note")
 		cb.NoRun = true
 		out = append(out, cb)
 		dual := []string{"types", "exclude_fields", "computed_fields", "required_fields", "sensitive", "custom_duration", "sort"}
@@ -413,6 +434,8 @@ func Families(tier string, seed int64) []*spec.Program {
 			{"Gamma", F("BadTop", "timestamp", stdtime(), nn()), true, false, []string{"Gamma"}},
 			// an int64 cast to the configured custom duration type is a duration too: unmappable without duration_type
 			{"Leaf", F("BadCastDur", "int64", cast("Duration")), false, true, []string{"Alpha", "Beta"}},
+			// the unmappable field is the ONLY field of its message (which the reference declares without fields)
+			{"Solo", F("BadOnly", "timestamp", stdtime()), true, false, []string{"Alpha"}},
 		}
 		if thorough {
 			injs = append(injs, inj{"Leaf", F("BadKey", "map:bool,msg:Leaf"), false, false, []string{"Alpha", "Beta"}},
@@ -430,6 +453,12 @@ func Families(tier string, seed int64) []*spec.Program {
 			}
 			if in.nodur {
 				ref.Config.DurationType = false
+			}
+			if in.msg == "Solo" {
+				ref.Spec.Messages = append(ref.Spec.Messages, M("Solo", nil))
+				if a := ref.Spec.MsgByName("Alpha"); a != nil {
+					a.Fields = append(a.Fields, spec.Field{Name: "Solo", Type: "msg:Solo", Num: 70}, spec.Field{Name: "Solos", Type: "map:msg:Solo", Num: 71})
+				}
 			}
 			if in.msg == "Gamma" {
 				// a mappable selected type, declared before the failing one, whose name starts with the failing
@@ -609,6 +638,14 @@ func Families(tier string, seed int64) []*spec.Program {
 				e1 := variant(a, "a_embedsub_exclpath", "option:Root.S.X", "C11")
 				e1.Config.ExcludeFields = []string{"Root.S.X"}
 				out = append(out, e1)
+				// a flag addressed to the nested message field itself: the attribute of that field, not the attributes
+				// promoted into its message from an embedded one
+				for i, key := range []string{"Root.S", "Root.T"} {
+					e3 := variant(a, fmt.Sprintf("a_embedsub_flag%d", i), "option:"+key, "C11")
+					e3.Config.SensitiveFields = []string{key}
+					e3.Config.ComputedFields = []string{key}
+					out = append(out, e3)
+				}
 				e2 := variant(a, "a_embedsub_exclkey", "option:Emb.X", "C11")
 				e2.Config.ExcludeFields = []string{"Emb.X"}
 				out = append(out, e2)
